@@ -12,6 +12,9 @@
 #define VG_BLOCK_BYTES 2
 #endif
 #define VG_SPD ((VG_BLOCK_BYTES * 8) / VG_BITS)
+#ifndef VG_CASE
+#define VG_CASE 0      /* 0: every relative position; 1 contiguous, 2 gap, 3 overlap (the three together cover 0) */
+#endif
 #ifndef VG_MAXN
 #define VG_MAXN (VG_SPD + 1)
 #endif
@@ -76,6 +79,13 @@ void h_fsr_pack(void) {
     uint8_t * d = malloc((size_t) ((n * VG_BITS + 7) / 8));
     __CPROVER_assume(d != NULL);
     int64_t end0 = t0 + e0; int64_t end1 = id + n;
+#if VG_CASE == 1
+    __CPROVER_assume(fresh || id == end0);      /* unit variant: contiguous writes */
+#elif VG_CASE == 2
+    __CPROVER_assume(!fresh && id > end0);      /* unit variant: gaps */
+#elif VG_CASE == 3
+    __CPROVER_assume(!fresh && id < end0);      /* unit variant: overlaps */
+#endif
     int64_t end = (end1 > end0) ? end1 : end0;
     __CPROVER_assume(w >= t0 && w < end);
     vg_w = w; vg_wk = wk; vg_next_ts = t0; vg_stored = 0; vg_seen = 0; vg_bad_block = 0; vg_short_blocks = 0;
